@@ -223,6 +223,25 @@ def run_state(st, name, pos, scope, ignore, placement, tags, order=None, kind="g
                     st.outcomes["update-ok"] += 1
             else:
                 st.outcomes["update-refused"] += 1
+    # an explicit --set-version that names an existing tag (on any branch) must be refused
+    if not ignore and order is None:
+        cands = [t for t in served_all if classify_tag(name, t) == "match" and all(bg.greater(t, w) for w in want)][:2]
+        for t in cands:
+            fake = fakevcs.install(fakevcs.FakeVCS(kind, tags_all=served_all, tags_merged=served_head, status=[]))
+            try:
+                o = world.cli("update", "--dry", "--no-fetch", "--set-version", t)
+            finally:
+                fakevcs.uninstall()
+            st.evaluations += 1
+            st.transitions += 1
+            results.append(o)
+            if o.exit == 0:
+                st.outcomes["violation"] += 1
+                st.violation(f"C09:set-version-equal-to-existing-tag-accepted:{name}:{scope}", dict(case, cmd="update --set-version " + t),
+                             {"announced": o.new_version, "tag": t, "where": dict(zip(tags, placement)).get(t)})
+            else:
+                st.validated += 1
+                st.outcomes["set-version-of-existing-tag-refused"] += 1
     st.observe((case, [(o.exit, o.crashed, o.stdout, o.old_version, o.new_version) for o in results]))
     st.state(name, pos, scope, ignore, placement, order)
     if served_all:
